@@ -1,4 +1,5 @@
 import UgoVerif.VM.Base
+import UgoVerif.VM.Copy
 /-
   VM model — one instruction (`step`), error throwing, calls.  Written in Go
   statement order; every comment `-- vm.go:<what>` names the mirrored code.
@@ -886,11 +887,10 @@ def execStoreModule : M Ctl := do
   let midx ← opnd2 1
   let sp ← getSp
   let value ← stackGet (sp - 1)
-  -- Copier: Array, Map, Bytes, Function, Error, … ; module values in the model are maps/arrays/scalars
-  let value ← (match value with
-    | .map _ | .arr .. => unsupported "STOREMODULE deep copy of a container"
-    | .nil => panic "runtime error: invalid memory address or nil pointer dereference"
-    | v => pure v)
+  -- if v, ok := value.(Copier); ok { value = v.Copy(); vm.stack[vm.sp-1] = value }   (VM/Copy.lean;
+  -- the comma-ok assertion on a nil interface is false, not a panic)
+  let value ← copyV value
+  stackSet (sp - 1) value
   let s ← getS
   if midx ≥ s.modules.size then
     panic s!"runtime error: index out of range [{midx}] with length {s.modules.size}"
@@ -987,35 +987,9 @@ def execUnary (F : FloatOps) : M Ctl := do
   let tok := tokOfNat (← opnd1 1)
   let sp ← getSp
   let right ← stackGet (sp - 1)
-  match right with
-  | .nil => panic "runtime error: invalid memory address or nil pointer dereference"
-  | _ => pure ()
-  if tok == .Not then
-    stackSet (sp - 1) (.bool (← isFalsy right)); bumpIp 1; return .next
-  let bad : M Ctl := failWith (.named "TypeError" s!"invalid type for unary '{tok.str}': '{typeName right}'")
-  let r? : Option (Option V) := match tok, right with
-    | .Sub, .int x => some (some (.int (-x)))
-    | .Sub, .float x => some (some (.float (F.neg x)))
-    | .Sub, .char x => some (some (.int (BitVec.signExtend 64 (-x))))
-    | .Sub, .uint x => some (some (.uint (-x)))
-    | .Sub, .bool b => some (some (.int (if b then (-1#64) else 0#64)))
-    | .Sub, _ => some none
-    | .Xor, .int x => some (some (.int (~~~x)))
-    | .Xor, .uint x => some (some (.uint (~~~x)))
-    | .Xor, .char x => some (some (.int (~~~(BitVec.signExtend 64 x))))
-    | .Xor, .bool b => some (some (.int (if b then ~~~(1#64) else ~~~(0#64))))
-    | .Xor, _ => some none
-    | .Add, .int x => some (some (.int x))
-    | .Add, .uint x => some (some (.uint x))
-    | .Add, .float x => some (some (.float x))
-    | .Add, .char x => some (some (.char x))
-    | .Add, .bool b => some (some (.int (if b then 1#64 else 0#64)))
-    | .Add, _ => some none
-    | _, _ => none
-  match r? with
-  | none => failWith (.named "InvalidOperatorError" s!"invalid for '{tok.str}': '{typeName right}'")
-  | some none => bad
-  | some (some v) => stackSet (sp - 1) v; bumpIp 1; return .next
+  match (← vUnary F tok right) with
+  | .ok v => stackSet (sp - 1) v; bumpIp 1; return .next
+  | .error e => failWith e
 
 def execNoOp : M Ctl := do
   return .next
